@@ -85,7 +85,8 @@ void addStripsShape(NifFile& nif) {
 			n.emplace_back(0.0f, 0.0f, 1.0f);
 		}
 	data->Create(nif.GetHeader().GetVersion(), &v, nullptr, &uv, &n);
-	data->stripsInfo.points = {{0, 3, 1, 4, 2, 5, 5, 3, 3, 6, 4, 7, 5, 8}, {0, 1, 3}};
+	// (a short strip first: the winding of a strip's triangles depends on the position inside that strip only)
+	data->stripsInfo.points = {{0, 1, 3}, {0, 3, 1, 4, 2, 5, 5, 3, 3, 6, 4, 7, 5, 8}, {4, 5, 7, 8}};
 	data->stripsInfo.stripLengths.clear();
 	for (auto& p : data->stripsInfo.points) {
 		uint16_t l = (uint16_t) p.size();
@@ -110,7 +111,9 @@ void buildCase(const JV& c, size_t k, std::string& out) {
 	bool toSSE = c["toSSE"].b;
 	NifFile gen;
 	gen.Create(toSSE ? NiVersion::getSK() : NiVersion::getSSE());
-	size_t nv = 12;
+	// many bones: more than any version's per-partition limit (the LE side has none), so the conversion has to split
+	bool many = c.has("manyBones") && c["manyBones"].b;
+	size_t nv = many ? 210 : 12;
 	std::vector<Triangle> tris;
 	for (size_t i = 0; i + 2 < nv; i++) tris.emplace_back(uint16_t(i), uint16_t(i + 1), uint16_t(i + 2));
 	std::vector<std::string> names = {"S", "S2"}; // (the by-name skinning API needs distinct names; a duplicate is made afterwards)
@@ -123,7 +126,7 @@ void buildCase(const JV& c, size_t k, std::string& out) {
 			gen.SetColorsForShape(shape, cols);
 		}
 		if (c["skinned"].b) {
-			size_t nb = 4;
+			size_t nb = many ? 100 : 4;
 			skinShape(gen, shape, nb, [&](uint16_t v) {
 				std::vector<std::pair<int, float>> w;
 				int b = int((size_t(v) * nb) / nv);
